@@ -661,8 +661,14 @@ func ExecutePlan(plan *Plan, p ExecuteParams) (result *Result) {
 	resultChannel := make(chan *Result, 2)
 	go func() {
 		out := &Result{}
+		var eCtx *executionContext
 		defer func() {
 			if err := recover(); err != nil {
+				// a failure that nulls data itself does not discard the
+				// errors already recorded for other fields
+				if eCtx != nil {
+					out.Errors = append(out.Errors, eCtx.Errors...)
+				}
 				if e, ok := err.(error); ok {
 					out.Errors = append(out.Errors, gqlerrors.FormatError(e))
 				} else {
@@ -685,7 +691,7 @@ func ExecutePlan(plan *Plan, p ExecuteParams) (result *Result) {
 			return
 		}
 
-		eCtx := &executionContext{
+		eCtx = &executionContext{
 			Schema:         execSchema,
 			Fragments:      plan.fragments,
 			Root:           p.Root,
